@@ -1,4 +1,6 @@
 import Rtsp.Proofs.Receiver.Run
+import Rtsp.Proofs.Receiver.Displace
+import Rtsp.Proofs.Receiver.Reports
 /-
 # C14 — RTP receiver: ordered, de-duplicated delivery and exact loss accounting
 
@@ -155,5 +157,305 @@ example : Pow2 4 := ⟨2, by decide, by decide⟩
 example : Inv exState := inv_exec _ [.pkt ⟨65534, 0⟩, .pkt ⟨1, 1⟩] (inv_init true 4 (fun _ => ⟨2, by decide, by decide⟩))
 /-- the restart hypothesis is satisfiable: five packets behind the origin with N = 4 -/
 example : ∃ o ∈ (run exState [⟨60000, 2⟩, ⟨60001, 3⟩, ⟨60002, 4⟩, ⟨60003, 5⟩, ⟨60004, 6⟩]).2, o.restart = true := by decide
+
+/-! ## The displacement clause where it IS true of the code: no loss, bounded displacement
+
+Additional definitions (in `Proofs/Receiver/{Conserve,Displace,Reports}`):
+`delivered outs` : all packets delivered along a history, in delivery order;
+`seqAt l i`      : the sequence number `l + 1 + i` (mod 2^16), the `i`-th packet of the stream after `l`;
+`InWindow s ps`  : every arrival of `ps` meets a state in which `0 ≤ relPos < len(buffer)` and its slot
+  is free — `reorder` takes neither the negative (drop / restart) branch, nor the whole-buffer flush
+  branch, nor the duplicate branch;
+`SubMs a b`      : multiset inclusion, `∀ q, count q a ≤ count q b`.
+
+"Displaced by fewer positions than the buffer size" is formalised on sequence numbers: the arrival
+order `idx` (stream indices) is a permutation of `0 … n-1` (nothing lost, nothing duplicated) such
+that an earlier arrival `a` and a later arrival `c` always satisfy `a < c + N` — no packet arrives
+before a packet whose sequence number is `N` or more lower.  This implies that every packet is
+preceded by fewer than `N` packets with a higher sequence number (they are among `c+1 … c+N-1`) and
+arrives at most `N−1` positions late.  The weaker count-of-positions reading is NOT enough for the
+code: see `early_arrival_flushes` below (one packet 4 positions early, everybody else ≤ 1 late,
+N = 2: the early packet triggers the whole-buffer flush). -/
+
+/-- **Displacement clause, loss-free case.**  From any reachable state with an empty reorder buffer,
+if the arrivals are a permutation of the consecutive stream `last+1 … last+n` (any `n`, so across
+any number of wraps) in which no packet arrives before a packet `N = len(buffer)` or more positions
+behind it, then: every arrival falls inside the window (no flush, no drop, no restart, no duplicate
+branch), no step reports a loss, the delivered packets are exactly the stream in order, they are
+the arrivals themselves (a permutation: each delivered exactly once), `Lost` is unchanged and the
+buffer is empty again after the last arrival. -/
+theorem displacement_without_loss_delivered (s : State) (h : Inv s) (hf : s.first = true)
+    (hu : s.unreliable = true) (hempty : occupied s = []) (ps : List Pkt) (idx : List Nat) (n : Nat)
+    (hperm : idx.Perm (List.range n))
+    (hseq : ps.map (·.seq) = idx.map (seqAt s.last))
+    (hdisp : idx.Pairwise (fun a c => a < c + s.buf.length)) :
+    InWindow s ps ∧
+    (∀ o ∈ (run s ps).2, o.restart = false ∧ o.lost = 0) ∧
+    (delivered (run s ps).2).map (·.seq) = (List.range n).map (seqAt s.last) ∧
+    (delivered (run s ps).2).Perm ps ∧
+    (run s ps).1.lost = s.lost ∧
+    occupied (run s ps).1 = [] := by
+  obtain ⟨h1, h2, h3, h4⟩ :=
+    disp_run s.last n s 0 idx ps h hf hu (disp_start s hempty idx n hperm hdisp) hseq
+  have hp := inwindow_perm s ps h hf hu h1
+  rw [h4, hempty] at hp
+  refine ⟨h1, h2, ?_, by simpa using hp, ?_, h4⟩
+  · rw [h3, List.range_eq_range']; rfl
+  · rw [(run_stats s ps hf).2.1, lostTotal_zero _ (fun o ho => (h2 o ho).2)]; rfl
+
+/-- the same from power-on: the first packet `p0` defines the origin, the rest of the history is a
+boundedly displaced permutation of the `n` packets that follow it -/
+theorem displacement_without_loss_from_init (size : Nat) (hs : Pow2 size) (p0 : Pkt) (ps : List Pkt)
+    (idx : List Nat) (n : Nat) (hperm : idx.Perm (List.range n))
+    (hseq : ps.map (·.seq) = idx.map (seqAt p0.seq))
+    (hdisp : idx.Pairwise (fun a c => a < c + size)) :
+    (delivered (run (Recv.init true size) (p0 :: ps)).2).map (·.seq)
+      = p0.seq :: (List.range n).map (seqAt p0.seq) ∧
+    (delivered (run (Recv.init true size) (p0 :: ps)).2).Perm (p0 :: ps) ∧
+    lostTotal (run (Recv.init true size) (p0 :: ps)).2 = 0 ∧
+    (run (Recv.init true size) (p0 :: ps)).1.lost = 0 ∧
+    (run (Recv.init true size) (p0 :: ps)).1.received = n + 1 ∧
+    occupied (run (Recv.init true size) (p0 :: ps)).1 = [] := by
+  have hlen : (started true size p0).buf.length = size := by simp [started, Recv.init]
+  obtain ⟨_, h2, h3, h4, h5, h6⟩ := displacement_without_loss_delivered (started true size p0)
+    (inv_started true size (fun _ => hs) p0) rfl rfl (occupied_started true size p0) ps idx n hperm
+    hseq (by rw [hlen]; exact hdisp)
+  have hl0 := lostTotal_zero _ (fun o ho => (h2 o ho).2)
+  have hrecv := (run_stats (started true size p0) ps rfl).1
+  have hcnt : deliveredCount (run (started true size p0) ps).2 = n := by
+    have e1 := congrArg List.length h3
+    simp only [List.length_map, List.length_range] at e1
+    rw [← e1]
+    simp [deliveredCount, delivered, List.length_flatMap]
+  rw [run_cons, step_init]
+  refine ⟨?_, ?_, ?_, ?_, ?_, h6⟩
+  · simp only [delivered, List.flatMap_cons, List.map_append, List.map_cons, List.map_nil] at h3 ⊢
+    rw [h3]; rfl
+  · simp only [delivered, List.flatMap_cons] at h4 ⊢
+    exact List.Perm.cons p0 h4
+  · simp only [lostTotal, List.map_cons, List.sum_cons] at hl0 ⊢
+    omega
+  · rw [h5]; rfl
+  · rw [hrecv, hcnt]; simp [started]; omega
+
+/-- non-vacuity: N = 4, first packet 65533, then the 8 packets 65534 … 5 (across the wrap) in the
+order 2 0 1 3 6 4 5 7 (packets arrive up to 2 positions late, never 4 or more ahead) -/
+def exIdx : List Nat := [2, 0, 1, 3, 6, 4, 5, 7]
+def exPs : List Pkt := exIdx.map fun i => { seq := seqAt 65533 i, id := i }
+example : exIdx.Perm (List.range 8) ∧ exPs.map (·.seq) = exIdx.map (seqAt 65533) ∧
+    exIdx.Pairwise (fun a c => a < c + 4) := by decide
+example : (delivered (run (Recv.init true 4) (⟨65533, 100⟩ :: exPs)).2).map (·.id)
+    = [100, 0, 1, 2, 3, 4, 5, 6, 7] := by decide
+
+/-- **Promptness in the loss-free case**: after every prefix `ps1` of such a history the delivered
+packets are exactly the longest initial segment of the stream that has completely arrived — the
+first `b` packets in order, where every index below `b` is among the arrivals so far and index `b`
+itself is not.  Reordering never holds a packet back longer than necessary. -/
+theorem displacement_without_loss_prompt (s : State) (h : Inv s) (hf : s.first = true)
+    (hu : s.unreliable = true) (hempty : occupied s = []) (ps1 : List Pkt) (idx1 idx2 : List Nat)
+    (n : Nat) (hperm : (idx1 ++ idx2).Perm (List.range n))
+    (hseq : ps1.map (·.seq) = idx1.map (seqAt s.last))
+    (hdisp : (idx1 ++ idx2).Pairwise (fun a c => a < c + s.buf.length)) :
+    ∃ b, (delivered (run s ps1).2).map (·.seq) = (List.range b).map (seqAt s.last) ∧
+      (∀ i, i < b → i ∈ idx1) ∧ (b < n → b ∉ idx1) ∧ b ≤ n := by
+  obtain ⟨b, _, hd, hdel, hw⟩ := disp_prefix s.last n s 0 idx1 idx2 ps1 h hf hu
+    (disp_start s hempty (idx1 ++ idx2) n hperm hdisp) hseq
+  have hmem : ∀ i, i ∈ idx1 ++ idx2 ↔ i < n := by
+    intro i; rw [hperm.mem_iff]; simp
+  have hnd : (idx1 ++ idx2).Nodup := hperm.nodup_iff.mpr (range_nodup' n)
+  refine ⟨b, by rw [hdel, List.range_eq_range']; rfl, ?_, ?_, hd.le⟩
+  · intro i hi
+    have hin : i ∈ idx1 ++ idx2 := (hmem i).mpr (by have := hd.le; omega)
+    rcases List.mem_append.mp hin with e | e
+    · exact e
+    · have := (hd.range i e).1; omega
+  · intro hb hmem1
+    have h2 := disp_next_pending s.last n _ b idx2 hw hd hb
+    exact (List.nodup_append.mp hnd).2.2 b hmem1 b h2 rfl
+
+/-- non-vacuity: the example history above after its first five arrivals 2 0 1 3 6: packets
+0 … 3 delivered, 4 not yet arrived, 6 waiting -/
+example : (exIdx.take 5 ++ exIdx.drop 5).Perm (List.range 8) ∧
+    (exPs.take 5).map (·.seq) = (exIdx.take 5).map (seqAt 65533) ∧
+    (delivered (run (started true 4 ⟨65533, 100⟩) (exPs.take 5)).2).map (·.id) = [0, 1, 2, 3] := by decide
+
+/-- TEST (`decide` on one sample, not a theorem over all inputs): counting positions is not enough.
+N = 2, stream 1 … 4 after first packet 0, arrival order 3 1 2 4 — packet 3 is two positions early,
+packets 1 and 2 are one position late and preceded by fewer than N higher-numbered packets; the
+early packet is ≥ N ahead of the origin and triggers the whole-buffer flush (1 and 2 counted lost),
+after which 1 and 2 are behind the origin and dropped. -/
+theorem early_arrival_flushes :
+    ((run (Recv.init true 2) ([0, 3, 1, 2, 4].map fun n => { seq := UInt16.ofNat n, id := n })).2.flatMap
+      (·.pkts)).map (·.id) = [0, 3, 4] ∧
+    lostTotal (run (Recv.init true 2) ([0, 3, 1, 2, 4].map fun n => { seq := UInt16.ofNat n, id := n })).2 = 2 := by
+  decide
+
+/-! ## Extended highest sequence number along a history
+
+`dist a b` : forward distance `(b − a) mod 2^16`; `travel l seqs` : Σ of the forward distances
+between consecutive elements of `seqs`, starting from `l`. -/
+
+/-- **Extended highest sequence number, lifted to histories.**  If every delivered packet is ahead
+of the previously delivered one in the receiver's own sense (`Fwd`: 1 … 2^15 positions), the
+extended highest sequence number `cycles·2^16 + last` — the `LastSequenceNumber` field of the next
+receiver report — equals its starting value plus the sum of the forward distances of all delivered
+packets, as long as that still fits the 32-bit field (i.e. the 16-bit cycle counter does not
+overflow). -/
+theorem ext_seq_history (s : State) (ps : List Pkt) (hf : s.first = true)
+    (hinc : IncFrom s.last ((delivered (run s ps).2).map (·.seq)))
+    (hb : extSeq s + travel s.last ((delivered (run s ps).2).map (·.seq)) < 2 ^ 32) :
+    extSeq (run s ps).1 = extSeq s + travel s.last ((delivered (run s ps).2).map (·.seq)) ∧
+    ∀ r, (report (run s ps).1).2 = some r →
+      r.extSeq = extSeq s + travel s.last ((delivered (run s ps).2).map (·.seq)) := by
+  have := ext_seq_run s ps hf (steps_mono _ _ (by decide) _ _ (incFrom_steps _ _ hinc)) hb
+  refine ⟨this, ?_⟩
+  intro r hr
+  rw [(report_floor _ r hr).2.1, this]
+
+/-- in unreliable mode the hypothesis of `ext_seq_history` holds by itself for every history without
+a detected restart (by `delivered_increasing_and_lost_eq_skipped`) -/
+theorem ext_seq_history_no_restart (s : State) (ps : List Pkt) (h : Inv s) (hf : s.first = true)
+    (hu : s.unreliable = true) (hnr : ∀ o ∈ (run s ps).2, o.restart = false)
+    (hb : extSeq s + travel s.last ((delivered (run s ps).2).map (·.seq)) < 2 ^ 32) :
+    extSeq (run s ps).1 = extSeq s + travel s.last ((delivered (run s ps).2).map (·.seq)) := by
+  have hacc := run_accounted s ps h hf
+  rw [hu] at hacc
+  exact (ext_seq_history s ps hf (accounted_incFrom _ _ hacc hnr) hb).1
+
+/-- from power-on: the extended highest sequence number is the first sequence number plus the sum of
+the forward distances of all packets delivered after the first -/
+theorem ext_seq_history_from_init (u : Bool) (size : Nat) (p : Pkt) (ps : List Pkt)
+    (hinc : IncFrom p.seq ((delivered (run (Recv.init u size) (p :: ps)).2.tail).map (·.seq)))
+    (hb : p.seq.toNat + travel p.seq ((delivered (run (Recv.init u size) (p :: ps)).2.tail).map (·.seq)) < 2 ^ 32) :
+    extSeq (run (Recv.init u size) (p :: ps)).1
+      = p.seq.toNat + travel p.seq ((delivered (run (Recv.init u size) (p :: ps)).2.tail).map (·.seq)) := by
+  rw [run_cons, step_init] at hinc hb ⊢
+  simp only [List.tail_cons] at hinc hb ⊢
+  have he : extSeq (started u size p) = p.seq.toNat := by simp [extSeq, started, Recv.init]
+  have := (ext_seq_history (started u size p) ps rfl hinc (by rw [he]; exact hb)).1
+  rw [this, he]; rfl
+
+/-- non-vacuity: a history across the 65535 → 0 wrap with a loss and a reordering -/
+example : IncFrom 65533 ((delivered (run (Recv.init true 4)
+      [⟨65533, 0⟩, ⟨65535, 1⟩, ⟨65534, 2⟩, ⟨1, 3⟩, ⟨0, 4⟩, ⟨9, 5⟩]).2.tail).map (·.seq)) ∧
+    extSeq (run (Recv.init true 4)
+      [⟨65533, 0⟩, ⟨65535, 1⟩, ⟨65534, 2⟩, ⟨1, 3⟩, ⟨0, 4⟩, ⟨9, 5⟩]).1 = 65533 + 12 := by decide
+
+/-- non-vacuity for `ext_seq_history_no_restart`: the same history has no detected restart -/
+example : ∀ o ∈ (run (started true 4 ⟨65533, 0⟩) [⟨65535, 1⟩, ⟨65534, 2⟩, ⟨1, 3⟩, ⟨0, 4⟩, ⟨9, 5⟩]).2,
+    o.restart = false := by decide
+
+/-- the same for both transports under the weaker hypothesis that is what the cycle counter really
+needs: every delivery is 1 … 61440 (= 2^16 − 4096, from the `diff < -0x0FFF` test) positions ahead
+of the previous one — in reliable mode a forward jump of up to 61440 is still followed exactly -/
+theorem ext_seq_history_wide (s : State) (ps : List Pkt) (hf : s.first = true)
+    (hst : Steps 61440 s.last ((delivered (run s ps).2).map (·.seq)))
+    (hb : extSeq s + travel s.last ((delivered (run s ps).2).map (·.seq)) < 2 ^ 32) :
+    extSeq (run s ps).1 = extSeq s + travel s.last ((delivered (run s ps).2).map (·.seq)) :=
+  ext_seq_run s ps hf hst hb
+
+/-- non-vacuity: reliable mode, two jumps of 40000 (the second across the wrap) -/
+example : Steps 61440 0 ((delivered (run (started false 0 ⟨0, 0⟩) [⟨40000, 1⟩, ⟨14464, 2⟩, ⟨14465, 3⟩]).2).map (·.seq)) ∧
+    extSeq (run (started false 0 ⟨0, 0⟩) [⟨40000, 1⟩, ⟨14464, 2⟩, ⟨14465, 3⟩]).1 = 80001 := by decide
+
+/-! ## Packet identity -/
+
+/-- **Every delivered packet is one of the arrivals** (by identity, with multiplicity): along every
+history, in both modes, the delivered packets together with those still waiting in the buffer form a
+sub-multiset of the arrivals together with those waiting at the start. -/
+theorem delivered_subperm_arrivals (s : State) (ps : List Pkt) (h : Inv s) :
+    SubMs (delivered (run s ps).2 ++ occupied (run s ps).1) (ps ++ occupied s) :=
+  run_subms s ps h
+
+/-- hence, when the arrivals (and initially waiting packets) carry pairwise distinct identities, no
+identity is delivered twice — within an epoch or across detected restarts — and none is both
+delivered and still waiting -/
+theorem delivered_ids_distinct (s : State) (ps : List Pkt) (h : Inv s)
+    (hid : ((ps ++ occupied s).map (·.id)).Nodup) :
+    ((delivered (run s ps).2 ++ occupied (run s ps).1).map (·.id)).Nodup :=
+  (run_subms s ps h).ids_nodup hid
+
+/-- from power-on -/
+theorem delivered_subperm_from_init (u : Bool) (size : Nat) (hs : u = true → Pow2 size) (ps : List Pkt) :
+    SubMs (delivered (run (Recv.init u size) ps).2) ps ∧
+    ((ps.map (·.id)).Nodup → ((delivered (run (Recv.init u size) ps).2).map (·.id)).Nodup) := by
+  have hocc := occupied_init u size
+  have h := run_subms _ ps (inv_init u size hs)
+  rw [hocc, List.append_nil] at h
+  have h' : SubMs (delivered (run (Recv.init u size) ps).2) ps := by
+    intro q; have := h q; simp only [List.count_append] at this; omega
+  exact ⟨h', fun hid => h'.ids_nodup hid⟩
+
+/-- for an arrival that is inside the window (or ahead of it) and not a copy of a waiting packet the
+inclusion is an equality: `reorder` neither drops nor invents a packet -/
+theorem arrival_conserved_exactly (s : State) (p : Pkt) (h : WInv s) (hr : 0 ≤ relPos p.seq s.last)
+    (hnd : relPos p.seq s.last < s.buf.length →
+      s.buf.getD (slotIdx s (relPos p.seq s.last).toNat) none = none ∨ relPos p.seq s.last = 0) :
+    ((reorder s p).2.pkts ++ occupied (reorder s p).1).Perm (p :: occupied s) :=
+  reorder_perm s p h hr hnd
+
+/-- non-vacuity for `arrival_conserved_exactly`: `exState` (packet 1 waiting, origin 65534) meets the
+in-order packet 65535: it is delivered at once, packet 1 keeps waiting (0 is still missing) -/
+example : 0 ≤ relPos 65535 exState.last ∧ relPos 65535 exState.last = 0 ∧
+    ((reorder exState ⟨65535, 7⟩).2.pkts ++ occupied (reorder exState ⟨65535, 7⟩).1) = [⟨65535, 7⟩, ⟨1, 1⟩] := by
+  decide
+
+/-- non-vacuity (distinct ids incl. a duplicate sequence number carried by a different packet) -/
+example : (([⟨10, 0⟩, ⟨12, 1⟩, ⟨12, 2⟩, ⟨11, 3⟩] : List Pkt).map (·.id)).Nodup ∧
+    (delivered (run (Recv.init true 4) [⟨10, 0⟩, ⟨12, 1⟩, ⟨12, 2⟩, ⟨11, 3⟩]).2).map (·.id) = [0, 3, 1] := by
+  decide
+
+/-! ## Receiver-report fields after any interleaving of packets and reports
+
+`outsOf evs` : the outputs of all `ProcessPacket2` steps of an event history;
+`sinceReport evs` : the outputs of the steps since the last report that was actually produced. -/
+
+/-- **The loss counters agree with the history**: after any sequence of packets and reports from
+power-on, `lost` is the sum of the losses reported by all steps, `lostSinceReport` the sum over the
+steps since the previous report, and `receivedAndLostSinceReport` the number of packets delivered
+plus lost over the same steps. -/
+theorem loss_counters_history (u : Bool) (size : Nat) (hs : u = true → Pow2 size) (ops : List Op) :
+    (exec (Recv.init u size) ops).1.lost = lostTotal (outsOf (exec (Recv.init u size) ops).2) ∧
+    (exec (Recv.init u size) ops).1.lostSince = lostTotal (sinceReport (exec (Recv.init u size) ops).2) ∧
+    (exec (Recv.init u size) ops).1.rlSince
+      = deliveredCount (sinceReport (exec (Recv.init u size) ops).2)
+        + lostTotal (sinceReport (exec (Recv.init u size) ops).2) := by
+  have := exec_acct _ ops [] [] (inv_init u size hs) (acct_init u size)
+  simp only [List.nil_append] at this
+  exact ⟨this.lost, this.since, this.rl⟩
+
+/-- **Report fields along a history.**  A report produced after any sequence of packets and reports
+has `totalLost = min(Σ lost, 2^24−1)` and `fractionLost = ⌊256·m / rl⌋` where `m = min(lostSince,
+2^24−1)`, `lostSince` / `rl` being the lost / delivered+lost totals of the steps since the previous
+report (exact floor characterisation: `f·rl ≤ 256·m < (f+1)·rl`; `f = 0` when `rl = 0`). -/
+theorem report_fields_history (u : Bool) (size : Nat) (hs : u = true → Pow2 size) (ops : List Op)
+    (r : Report) (hr : (report (exec (Recv.init u size) ops).1).2 = some r) :
+    r.totalLost = min (lostTotal (outsOf (exec (Recv.init u size) ops).2)) (2 ^ 24 - 1) ∧
+    (∀ ls rl, ls = lostTotal (sinceReport (exec (Recv.init u size) ops).2) →
+      rl = deliveredCount (sinceReport (exec (Recv.init u size) ops).2) + ls →
+      (rl = 0 → r.fractionLost = 0) ∧
+      r.fractionLost * rl ≤ 256 * min ls (2 ^ 24 - 1) ∧
+      (rl ≠ 0 → 256 * min ls (2 ^ 24 - 1) < (r.fractionLost + 1) * rl) ∧
+      (ls ≤ 2 ^ 24 - 1 → r.fractionLost * rl ≤ 256 * ls ∧ (rl ≠ 0 → 256 * ls < (r.fractionLost + 1) * rl))) := by
+  obtain ⟨c1, c2, c3⟩ := loss_counters_history u size hs ops
+  obtain ⟨f1, _, f3, f4, f5⟩ := report_floor _ r hr
+  have hl : Recv.lostClamp = 2 ^ 24 - 1 := by decide
+  have hc : Recv.fractionClamp = 2 ^ 24 - 1 := by decide
+  rw [c1, hl] at f1
+  rw [c2, c3, hc] at f4 f5
+  rw [c3] at f3
+  refine ⟨f1, ?_⟩
+  intro ls rl hls hrl
+  subst hls; subst hrl
+  refine ⟨f3, f4, f5, ?_⟩
+  intro hle
+  rw [Nat.min_eq_left hle] at f4 f5
+  exact ⟨f4, f5⟩
+
+/-- non-vacuity: packets, a report, more packets with a loss, then the report in question:
+4 lost + 2 delivered since the previous report → fraction ⌊256·4/6⌋ = 170 -/
+example : (report (exec (Recv.init true 4)
+      [.pkt ⟨1, 0⟩, .pkt ⟨2, 1⟩, .report, .pkt ⟨3, 2⟩, .pkt ⟨8, 3⟩]).1).2
+    = some { extSeq := 8, fractionLost := 170, totalLost := 4 } := by decide
 
 end Rtsp.Recv.C14
